@@ -106,8 +106,11 @@ static char g_sig[200];
 #define FAIL(rule, ...) do { snprintf(g_sig, sizeof g_sig, "%sc19:%s", scheduled ? "" : "free:", rule); vx_violation(g_sig, __VA_ARGS__); } while (0)
 
 /* ---- trial content */
+struct model;
+struct wctx { struct model *m; int id; };
 struct model {
     struct cmb_process p[3];
+    struct wctx wc[3];
     struct cmb_process watcher;
     struct cmb_resource r;
     struct cmb_condition c;     /* observes the resource's guard: observer tags come from a library-wide pool */
@@ -138,13 +141,15 @@ static void *watcher_proc(struct cmb_process *me, void *ctx)
 
 static void *worker_proc(struct cmb_process *me, void *ctx)
 {
-    struct model *m = ctx;
+    (void)me;
+    const struct wctx *wc = ctx;
+    struct model *m = wc->m;
     for (int k = 0; k < 3; k++) {
         if (cmb_resource_acquire(&m->r) != CMB_PROCESS_SUCCESS) {
             break;
         }
         cmb_process_hold((double)cmb_random_dice(0, 2));
-        m->acc = vx_mix(m->acc, (uint64_t)(me - m->p) * 1000 + (uint64_t)(cmb_time() * 8));
+        m->acc = vx_mix(m->acc, (uint64_t)wc->id * 1000 + (uint64_t)(cmb_time() * 8));
         cmb_resource_release(&m->r);
         cmb_process_hold((double)cmb_random_dice(0, 1));
     }
@@ -159,9 +164,17 @@ static uint64_t run_model(struct model *m, uint64_t seed, bool leave_blocked)
     cmb_condition_initialize(&m->c, "C");
     cmb_condition_subscribe(&m->c, &m->r.guard);
     m->acc = 0;
+    /* where in memory a trial's processes end up is not the trial's doing (it depends on what the allocator of
+     * that thread did before): every other run on a thread places the three workers in the opposite order.
+     * Worker 0 and worker 2 have the same priority and arrive at the resource in the same instant. */
+    static __thread unsigned placement;
+    const bool flip = (placement++ & 1u) != 0;
     for (int k = 0; k < 3; k++) {
-        cmb_process_initialize(&m->p[k], "p", worker_proc, m, (int64_t)(k % 2));
-        cmb_process_start(&m->p[k]);
+        struct cmb_process *pp = &m->p[flip ? 2 - k : k];
+        m->wc[k].m = m;
+        m->wc[k].id = k;
+        cmb_process_initialize(pp, "p", worker_proc, &m->wc[k], (int64_t)(k % 2));
+        cmb_process_start(pp);
     }
     cmb_process_initialize(&m->watcher, "w", watcher_proc, m, 0);
     cmb_process_start(&m->watcher);
@@ -231,7 +244,9 @@ static void trial_func(void *vp)
         ran_on[idx] = scheduled && in_experiment ? vxs_self() : 0;
         uint64_t param;
         memcpy(&param, ep, 8);
-        const uint64_t seed = 0x5EED0000ull + (param & 0xFFFF);
+        /* trials seed the generator from their own parameters; the first one uses the plainest of all,
+         * its replication index 0 */
+        const uint64_t seed = idx == 0 ? 0u : 0x5EED0000ull + (param & 0xFFFF);
         /* what a trial can see of the library's thread-local state before it has set anything up
          * itself: this must not depend on what ran earlier on this worker thread */
         const double clock_at_entry = cmb_time();
